@@ -2579,7 +2579,9 @@ class op(object):
                 mmap[i] = sum(mmap[i])
 
         for e in  equalities:
-            mmap[e] = constraints[1].multiplier[eslc[e]]
+            # the equality constraint is the last one (the only one if 
+            # there are no inequalities)
+            mmap[e] = constraints[-1].multiplier[eslc[e]]
         return (op(cost, constraints), vmap, mmap)
 
 
